@@ -73,6 +73,7 @@ ASSUMPTIONS = [
     "agents that are not in any cell are not part of the statement and are not observed on the copy",
     "values written to the bool layer 'empty' are 0/1; extra layers are int layers with small int values",
     "Voronoi capacities are observed as min(capacity, 99)",
+    "the grid's own property layer 'empty' is never removed (remove_property_layer('empty') is not performed)",
 ]
 
 
@@ -678,6 +679,8 @@ def _apply(case, side, op):
         return [0]
     if kind == "dellayer":
         nid = op[2]
+        if nid == 0:
+            return [-2]  # the grid's own layer "empty" is never removed
         had = LAYER[nid] in sp._mesa_property_layers
         try:
             sp.remove_property_layer(LAYER[nid])
